@@ -93,6 +93,20 @@ class CrudProfile(StoreProfile):
         alpha = self.alphabet(run)
         if i == 0:
             return {"op": "alphabet", "sids": alpha}
+        q = run.scratch.setdefault("queue", [])
+        if i == 1 and "F2" in alpha and rng.random() < 0.3:
+            # an episode on the two Sids that share one sidecar (paths differing only by extension): interleaved
+            # writes, then a new process
+            cfg0 = m.default_config
+            q += [{"op": "create", "cfg": cfg0, "sid": alpha["F1"], "data": None},
+                  {"op": "create", "cfg": cfg0, "sid": alpha["F2"], "data": None}]
+            order = [rng.choice(["F1", "F2"]) for _ in range(rng.randint(3, 5))]
+            for j, nme in enumerate(order):
+                q.append({"op": "write", "cfg": cfg0, "sid": alpha[nme], "how": rng.choice(["set", "update"]),
+                          "data": {"k%d" % j: j, "comment": "w%d" % j}})
+            q.append({"op": "restart"})
+        if q:
+            return q.pop(0)
         names = sorted(alpha)
         r = rng.random()
         cfg = rng.choice(m.configs) if rng.random() < 0.3 else m.default_config
